@@ -110,13 +110,19 @@ def run(ctx: Ctx):
                     coef = math.sqrt(2 * c["D"] * c["dt"]) / c["dx"]       # the property: variance 2 D dt / dx²
                     ex, ey = coef * dr[k], coef * dr[npart + k]
                     mdisp = bits2float(w[wi][1]); wi += 1
-                    if abs((s["X"][k] - px[k]) - mdisp) > 1e-12 * (1 + abs(px[k])):
+                    if s["alive"][k] and abs((s["X"][k] - px[k]) - mdisp) > 1e-12 * (1 + abs(px[k])):
                         bad = dict(step=n, particle=k, what="tie", implementation=s["X"][k] - px[k], model=mdisp)
                 if c["Dz"] > 0:
                     off = 2 * npart if c["D"] > 0 else 0
                     ez = math.sqrt(2 * c["Dz"] * c["dt"]) * dr[off + k]
                 zexp = abs(pz[k] + ez)
                 tol = 2e-13
+                if not s["alive"][k]:
+                    # the kick carried the particle out of the grid: it was killed and put back (C09), no claim here
+                    ex = ey = 0.0
+                    if (s["X"][k], s["Y"][k]) != (px[k], py[k]):
+                        bad = dict(step=n, particle=k, what="a particle killed at the boundary was moved", implementation=[s["X"][k], s["Y"][k]])
+                        break
                 if abs((s["X"][k] - px[k]) - ex) > tol * (1 + abs(px[k])) + 1e-9 * abs(ex) or abs((s["Y"][k] - py[k]) - ey) > tol * (1 + abs(py[k])) + 1e-9 * abs(ey) \
                         or abs(s["Z"][k] - zexp) > tol * (1 + abs(pz[k])) + 1e-9 * abs(ez):
                     bad = dict(step=n, particle=k, what="displacement is not sqrt(2 D dt)/dx times the particle's own draw",
